@@ -84,6 +84,16 @@ def model_check(rep, tier, wd):
     r = run_tlc(wd, "MC_Layout", cfg=cfg, workers=8, timeout=2400, xmx="10g")
     tlc_require_ok(r, "MC_Layout")
     rep.add_tlc("MC_Layout (Terminal.tla x Layout.tla agree for every small buffer, %s)" % cfg, r)
+    # rows of the hint section (what the engine moves back up by after printing helpers) against what a terminal uses
+    for W in ((3, 4, 7) if tier == "thorough" else (4,)):
+        open(os.path.join(wd, "MC_HintRows_w.cfg"), "w").write(open(os.path.join(wd, "MC_HintRows.cfg")).read().replace("W = 4", "W = %d" % W))
+        r = run_tlc(wd, "HintRows", cfg="MC_HintRows_w.cfg", workers=4, timeout=600)
+        tlc_require_ok(r, "HintRows (repaired shape)")
+        rep.add_tlc("HintRows (FrameStays, W=%d)" % W, r)
+    r = run_tlc(wd, "HintRows", cfg="MC_HintRows_pinned.cfg", workers=2, timeout=600)
+    if r.violation is None or "FrameStays" not in r.violation:
+        raise Infra("the pinned shape of HintRows should violate FrameStays (model self-test): %s" % r.violation)
+    rep.notes.append("HintRows pinned shape: TLC refutes it with two one-cell hint lines (counted 3 rows, used 2), as expected")
 
 
 def cur_indices(glyphs, cur):
